@@ -20,7 +20,11 @@ type altSet struct {
 	precise bool // false when the budget was exceeded and dominators were used
 }
 
+// maxAlts bounds the number of acyclic path classes enumerated per program
+// point (quick tier); the thorough tier raises it (see altBudget).
 const maxAlts = 96
+
+var altBudget = maxAlts
 
 func (lc *linCtx) hypAlts(b *ssa.BasicBlock) altSet {
 	memo := map[*ssa.BasicBlock]*altSet{}
@@ -58,7 +62,7 @@ func (lc *linCtx) hypAlts(b *ssa.BasicBlock) altSet {
 				res.alts = append(res.alts, na)
 			}
 		}
-		if len(res.alts) > maxAlts || len(res.alts) == 0 {
+		if len(res.alts) > altBudget || len(res.alts) == 0 {
 			res = altSet{alts: [][]cons{lc.hypAtBlock(b)}, precise: false}
 		}
 		memo[b] = &res
